@@ -109,9 +109,13 @@ func runGenerated(c *hx.Ctx) error {
 		if i >= 2 {
 			b = txBudget / 2
 		}
-		timed("txs", func() { G.txStream(fx, b) })
+		timed("txs", func() {
+			for rep := 0; rep < c.Scale(1, 3); rep++ { // thorough: every (type, recipient, payload) combination, three draws of the rest
+				G.txStream(fx, b)
+			}
+		})
 		if kind == "populated" || c.Tier != "quick" {
-			timed("fuzz", func() { G.fuzz(fx, c.Scale(20000, 100000), c.Scale(28000, 150000)) })
+			timed("fuzz", func() { G.fuzz(fx, c.Scale(20000, 300000), c.Scale(28000, 450000)) })
 		}
 		fx.close()
 	}
